@@ -7,7 +7,7 @@ use rs_matter::crypto::Crypto;
 use rs_matter::dm::clusters::adm_comm::AdministratorCommissioningCmdRequests;
 use rs_matter::dm::clusters::gen_comm::GeneralCommissioningClient;
 use rs_matter::dm::clusters::net_comm::NetworkCommissioningClient;
-use rs_matter::dm::clusters::noc::OperationalCredentialsClient;
+use rs_matter::dm::clusters::noc::{OperationalCredentialsClient, OperationalCredentialsCmdRequests};
 use rs_matter::error::{Error, ErrorCode};
 use rs_matter::im::client::ImClient;
 use rs_matter::im::{AttrDataTag, AttrResp, IMStatusCode};
@@ -90,6 +90,21 @@ impl<'a, C: Crypto> Ctl<'a, C> {
                     && s.peer_addr == self.dev_addr
             })
             .map(|s| s.id)
+    }
+
+    /// Drop the controller's own PASE session(s) to the device (what a commissioner does once
+    /// commissioning completed, or when it starts over through a new window).
+    pub fn forget_pase(&self) {
+        let ids: Vec<u32> = node::snapshot(self.matter)
+            .into_iter()
+            .filter(|s| matches!(s.mode, SessionMode::Pase { .. }))
+            .map(|s| s.id)
+            .collect();
+        self.matter.with_state(|st| {
+            for id in ids {
+                st.verif_sessions_mut().remove(id);
+            }
+        });
     }
 
     pub fn case_sessions(&self, fab_idx: NonZeroU8, peer: u64) -> Vec<u32> {
@@ -190,14 +205,32 @@ impl<'a, C: Crypto> Ctl<'a, C> {
     }
 
     pub async fn add_trusted_root(&self, via: Via, rcac: &[u8]) -> Out {
+        // NOTE: the generated typed client method for this status-only command does not look
+        // at the command status in the answer, so the generic invoke is used and the status read.
         let r: Result<(), Error> = async {
-            self.exch(via)
+            let chunk = self
+                .exch(via)
                 .await?
-                .operational_credentials()
-                .add_trusted_root_certificate(0, |req| {
-                    req.root_ca_certificate(OctetStr::new(rcac))?.end()
+                .invoke_with(None, |msg| {
+                    msg.invoke_requests()?
+                        .operational_credentials_inv()
+                        .add_trusted_root_certificate(0)?
+                        .root_ca_certificate(OctetStr::new(rcac))?
+                        .end()?
+                        .end()?
+                        .end()?
+                        .end()
                 })
-                .await
+                .await?;
+            let status = invoke_status(&chunk)?;
+            let mut chunk = chunk;
+            while let Some(next) = chunk.complete().await? {
+                chunk = next;
+            }
+            match status.to_error_code() {
+                None => Ok(()),
+                Some(c) => Err(c.into()),
+            }
         }
         .await;
         match r {
@@ -326,7 +359,9 @@ impl<'a, C: Crypto> Ctl<'a, C> {
                 .exch(via)
                 .await?
                 .invoke_with(Some(5000), |msg| {
-                    msg.invoke_requests()?
+                    msg.suppress_response(false)?
+                        .timed_request(true)?
+                        .invoke_requests()?
                         .administrator_commissioning_inv()
                         .revoke_commissioning(0)?
                         .end()?
@@ -357,7 +392,9 @@ impl<'a, C: Crypto> Ctl<'a, C> {
                 .exch(via)
                 .await?
                 .invoke_with(Some(5000), |msg| {
-                    msg.invoke_requests()?
+                    msg.suppress_response(false)?
+                        .timed_request(true)?
+                        .invoke_requests()?
                         .administrator_commissioning_inv()
                         .open_basic_commissioning_window(0)?
                         .commissioning_timeout(timeout_secs)?
